@@ -29,7 +29,11 @@
 (*                                                                         *)
 (* ACTIONS  one per public API call.                                       *)
 (*   mutators   NewGlobal NewAlias NewIFunc (m.NewGlobal.. / append to the *)
-(*              slice), NewFunc(name, params), NewBlock(f, name),          *)
+(*              slice), NewFunc(name, params), NewBlock(f, name, term)     *)
+(*              (f.NewBlock, and -- unless term is "none" -- at once the   *)
+(*              block.NewRet/NewBr/.. that gives it its terminator: two    *)
+(*              calls taken as one step, so that printable functions are   *)
+(*              not five calls deep),                                      *)
 (*              InsertInst(f, b, pos, name, res) (pos = end is the         *)
 (*              block.NewXxx append), RemoveInst(f, b, pos),               *)
 (*              SetTerm(f, b, term) (set or replace), SetName(target, nm)  *)
@@ -180,7 +184,9 @@ PrintBlockW(w, f, b) ==
 NewGlobalW(w, g, nm) == [w EXCEPT !.gl[g] = Append(@, Ent(nm))]
 NewFuncW(w, nm, ps)  == [gl |-> [w.gl EXCEPT !.funcs = Append(@, Ent(nm))],
                          fn |-> Append(w.fn, [params |-> ps, blocks |-> <<>>])]
-NewBlockW(w, f, nm)  == [w EXCEPT !.fn[f].blocks = Append(@, Block(nm, <<>>, NoTerm))]
+\* f.NewBlock(nm), optionally followed at once by block.NewRet / NewBr / ... (t # NoTerm)
+NewBlockW(w, f, nm, t) == [w EXCEPT !.fn[f].blocks =
+                             Append(@, Block(nm, <<>>, [t EXCEPT !.tgt = IF t.k = "none" THEN 0 ELSE Len(w.fn[f].blocks) + 1]))]
 InsertInstW(w, f, b, p, i) == [w EXCEPT !.fn[f].blocks[b].insts = InsAt(@, p, i)]
 RemoveInstW(w, f, b, p)    == [w EXCEPT !.fn[f].blocks[b].insts = DelAt(@, p)]
 SetTermW(w, f, b, t)       == [w EXCEPT !.fn[f].blocks[b].term = [t EXCEPT !.tgt = b]]   \* successor: the block itself
@@ -265,9 +271,10 @@ NewFuncA ==
     /\ Mutate(LAMBDA w : NewFuncW(w, nm, ps),
               [op |-> "NewFunc", nm |-> nm, ps |-> [i \in 1..Len(ps) |-> ps[i].name]])
 NewBlockA ==
-  \E f \in 1..Len(fn), nm \in NewNames :
+  \E f \in 1..Len(fn), nm \in NewNames, t \in Terms \cup {NoTerm} :
     /\ Len(fn[f].blocks) < MaxBlocks
-    /\ Mutate(LAMBDA w : NewBlockW(w, f, nm), [op |-> "NewBlock", f |-> f, nm |-> nm])
+    /\ Mutate(LAMBDA w : NewBlockW(w, f, nm, t),
+              [op |-> "NewBlock", f |-> f, nm |-> nm, k |-> t.k, tn |-> t.name, res |-> t.res])
 InsertInstA ==
   \E f \in 1..Len(fn) : \E b \in 1..Len(fn[f].blocks) :
     \E p \in 1..Len(fn[f].blocks[b].insts) + 1, i \in NewInsts :
